@@ -28,7 +28,7 @@ ASSUMPTIONS = ['observers are fed exactly the public play sequence; dummy hand i
 
 
 def plan(tier):
-    n, per = (8, 150) if tier == 'quick' else (12, 6000)
+    n, per = (8, 500) if tier == 'quick' else (12, 6000)
     sh = [{'kind': 'replicas', 'n': per} for _ in range(n)]
     from vf.props import _session
     return sh + _session.plan_c11(tier)
